@@ -1,2 +1,153 @@
+"""C01 - "for .rules files and legacy CSV rule files alike": the tuple loop of merchant_utils.normalize_merchant (no cached engine).
+
+Specification, from the statement: with hit(i) = "the match condition of row i is true for the transaction" and cat(i) = "row i carries a category",
+    F = the least i with hit(i) and cat(i)                                   (LegacyFirst ghost: -1 when there is none)
+the result is (merchant_F, category_F, subcategory_F) when F exists - whatever the merchant cell holds, an empty one included - and otherwise
+(a name that is a function of the description alone, 'Unknown', 'Unknown').  Rows whose condition is false, and rows after F, do not occur in it.
+hit(i) is read off the row the way the documentation of the CSV format has it: a pattern that is an expression is evaluated on the transaction (with
+the caller's supplemental sources), any other pattern is searched as a regular expression in the upper-cased description; [amount...] / [date...]
+modifiers, when the row has any, must hold as well; a pattern that cannot be evaluated / compiled makes the row not apply.  The meaning of the
+expression, of the regular expression and of the modifiers themselves is uninterpreted here (C04, A6, modifier_parser).
+Loop invariant over the rows read so far; assumption: rows are the 7-tuples get_all_rules builds.
+"""
+import ast
+
+import z3
+
+from pyvc.core import Unsupported
+from pyvc.extract import find_function
+from pyvc.ghost import Ghost
+from pyvc.interp import Interp, Spec, LoopSpec, PyRaise, Frame
+from pyvc.runner import Harness
+from pyvc.values import SymSeq, SymOpt, Obj, Func, Untracked, UF, StrS, IntS, BoolS, ObjS, RealS, to_z3
+
+MU = 'tally.merchant_utils.'
+Q = MU + 'normalize_merchant'
+SeqS, SeqO = z3.SeqSort(StrS), z3.SeqSort(ObjS)
+IsExpr = UF('_is_expression_pattern', StrS, BoolS)
+EErr, EVal = UF('matches_transaction.raises', StrS, BoolS), UF('matches_transaction', StrS, BoolS)
+RErr, RVal = UF('re.search.raises', StrS, BoolS), UF('re.search.finds', StrS, BoolS)
+Cond = UF('check_all_conditions', ObjS, BoolS)
+truthy = UF('truthy', ObjS, BoolS)
+AmountConds, DateConds = UF('ParsedPattern.amount_conditions', ObjS, ObjS), UF('ParsedPattern.date_conditions', ObjS, ObjS)
+NameOf = UF('extract_merchant_name', StrS, StrS)
+
+
+def has_mods(p):
+    return z3.And(truthy(p), z3.Or(truthy(AmountConds(p)), truthy(DateConds(p))))
+
+
+def hit(pattern, parsed):
+    mods_ok = z3.Implies(has_mods(parsed), Cond(parsed))
+    return z3.If(IsExpr(pattern), z3.And(z3.Not(EErr(pattern)), EVal(pattern), mods_ok), z3.And(z3.Not(RErr(pattern)), RVal(pattern), mods_ok))
+
+
+LegacyFirst = Ghost('LegacyFirst', [SeqS, SeqS, SeqO], IntS, base=lambda p, c, q: z3.IntVal(-1),
+                    step=lambda p, c, q, k, acc: z3.If(z3.And(acc == -1, hit(p[k], q[k]), z3.Length(c[k]) > 0), k, acc))
+
+
+def opt(v):
+    """(is bound, value or None) of a local that starts as None"""
+    if v is None:
+        return z3.BoolVal(False), None
+    if isinstance(v, SymOpt):
+        return v.is_some, v.value
+    return z3.BoolVal(True), v
+
+
+def h_legacy_loop(ctx):
+    sp = Spec()
+    sp.exc_table.update({'ExpressionError': 'Exception', 're.error': 'Exception', 'OverflowError': 'ArithmeticError', 'ArithmeticError': 'Exception',
+                         'RecursionError': 'RuntimeError', 'RuntimeError': 'Exception'})
+    I = Interp(ctx, sp)
+    fi = find_function(Q)
+    pat, mer, cat, sub, src = [ctx.fresh('rows.' + n, SeqS) for n in ('pattern', 'merchant', 'category', 'subcategory', 'source')]
+    parsed, tags = ctx.fresh('rows.parsed', SeqO), ctx.fresh('rows.tags', SeqO)
+    rules = SymSeq([pat, mer, cat, sub, parsed, src, tags], 7, [None, None, None, None, 'ParsedPattern', None, 'taglist'])
+    for c in (mer, cat, sub, src, parsed, tags):
+        ctx.assume(z3.Length(c) == z3.Length(pat))
+    desc = ctx.fresh('description', StrS)
+    amount, txn_date, ds = ctx.fresh('amount', RealS), Obj(ctx.fresh('txn_date', ObjS), 'date'), Obj(ctx.fresh('data_sources', ObjS), 'pydict')
+    sp.truthy_classes.add('date')
+    sp.globals['_cached_engine'] = None
+    sp.globals['re.IGNORECASE'] = z3.IntVal(2)
+    sp.field_sorts[('ParsedPattern', 'amount_conditions')] = ('obj', 'conditions')
+    sp.field_sorts[('ParsedPattern', 'date_conditions')] = ('obj', 'conditions')
+    upper = UF('str.upper', StrS, StrS)
+    seen = {}
+
+    sp.models['_is_expression_pattern'] = Func(lambda I_, a, k, n: IsExpr(to_z3(a[0], StrS)))
+
+    def m_matches(I_, a, k, n):
+        p = to_z3(a[0], StrS)
+        txn = a[1]
+        ctx.check('C01.legacy.expression_pattern_is_evaluated_on_this_transaction', isinstance(txn, dict) and txn.get('description') is not None
+                  and z3.is_expr(txn['description']) and z3.eq(txn['description'], desc), 'property')
+        ctx.check('C01.legacy.expression_pattern_sees_the_supplemental_sources', k.get('data_sources') is ds, 'property')
+        if I_.ctx.branch(EErr(p), 'matches_transaction.raises'):
+            raise PyRaise('ExpressionError', (), 'matches_transaction')
+        return EVal(p)
+    sp.models['expr_parser.matches_transaction'] = Func(m_matches)
+
+    def m_search(I_, a, k, n):
+        p = to_z3(a[0], StrS)
+        ctx.check('C01.legacy.regular_expression_is_searched_in_the_upper_cased_description', z3.is_expr(a[1]) and z3.eq(a[1], upper(desc)), 'property')
+        if I_.ctx.branch(RErr(p), 're.search.raises'):
+            raise PyRaise(['re.error', 'OverflowError', 'RecursionError'][I_.ctx.choose(3, 're.search.error')], (), 're.search')
+        return RVal(p)
+    sp.models['re.search'] = Func(m_search)
+
+    def m_conditions(I_, a, k, n):
+        ctx.check('C01.legacy.modifiers_are_checked_against_this_amount_and_date', z3.is_expr(a[1]) and z3.eq(a[1], amount) and a[2] is txn_date, 'property')
+        return Cond(to_z3(a[0]))
+    sp.models['check_all_conditions'] = Func(m_conditions)
+    sp.models['_resolve_dynamic_tags'] = Func(lambda I_, a, k, n: Untracked())
+    sp.models['extract_merchant_name'] = Func(lambda I_, a, k, n: NameOf(to_z3(a[0], StrS)))
+    sp.models['dict.fromkeys'] = Func(lambda I_, a, k, n: Untracked())
+    sp.models['list'] = Func(lambda I_, a, k, n: Untracked())
+    fr = Frame(fi, {})
+    fors = [n for n in ast.walk(fi.node) if isinstance(n, ast.For)]
+    outer = [n for n in fors if isinstance(n.iter, ast.Name) and n.iter.id == 'rules']
+    if len(outer) != 1:
+        raise Unsupported('normalize_merchant: expected one loop over `rules`')
+    results = ('result_merchant', 'result_category', 'result_subcategory')
+
+    def inv(I_, env, k, it):
+        F = LegacyFirst(pat, cat, parsed, k)
+        out = {}
+        some, m = opt(env['result_merchant'])
+        out['a_winner_is_recorded_exactly_when_a_categorizing_row_matched_so_far'] = some == (F != -1)
+        for name, col in zip(results, (mer, cat, sub)):
+            s_, v = opt(env[name])
+            if v is not None:
+                out['%s_is_that_of_the_first_matching_categorizing_row' % name] = z3.Implies(F != -1, z3.And(s_, to_z3(v, StrS) == col[F]))
+        out['first.range'] = z3.And(F >= -1, F < k) if not z3.is_int_value(k) or k.as_long() > 0 else F == -1
+        return out
+
+    def fresh_opt(name):
+        return lambda c: SymOpt(c.fresh(name + '.is_set', BoolS), c.fresh(name, StrS))
+    havoc = {n: fresh_opt(n) for n in results}
+    havoc.update({'result_pattern': lambda c: Untracked(), 'result_source': lambda c: Untracked(), 'all_tags': lambda c: Untracked(), 'tag_sources': lambda c: Untracked()})
+    sp.loops[(Q, fr.loop_ordinals[id(outer[0])])] = LoopSpec(inv, havoc, kind='property', unfold=lambda I_, env, k, it: LegacyFirst.unfold(pat, cat, parsed, k))
+    for nd in fors:
+        if nd is not outer[0]:
+            sp.loops[(Q, fr.loop_ordinals[id(nd)])] = LoopSpec(lambda I_, env, k, it: {}, {'tag_sources': lambda c: Untracked(), 'raw_values': lambda c: Untracked()})
+    for f in LegacyFirst.unfold(pat, cat, parsed, z3.IntVal(-1)):
+        ctx.assume(f)
+    r = I.call_function(fi, [desc, rules], {'amount': amount, 'txn_date': txn_date, 'field': Untracked(), 'data_source': Untracked(), 'transforms': None,
+                                             'location': Untracked(), 'data_sources': ds})
+    if not isinstance(r, tuple) or len(r) != 4:
+        raise Unsupported('normalize_merchant must return a 4-tuple')
+    n = z3.Length(pat)
+    F = LegacyFirst(pat, cat, parsed, n)
+    got = [to_z3(opt(x)[1], StrS) if opt(x)[1] is not None else None for x in r[:3]]
+    if any(g is None for g in got):
+        raise Unsupported('normalize_merchant returned None in the classification triple')
+    ctx.check('C01.legacy.result_is_the_first_matching_categorizing_row', z3.Implies(F != -1, z3.And(got[0] == mer[F], got[1] == cat[F], got[2] == sub[F])), 'property')
+    ctx.check('C01.legacy.unknown_when_no_categorizing_row_matches', z3.Implies(F == -1, z3.And(got[1] == z3.StringVal('Unknown'), got[2] == z3.StringVal('Unknown'))), 'property')
+    ctx.check('C01.legacy.unknown_merchant_name_depends_only_on_the_description', z3.Implies(F == -1, got[0] == NameOf(desc)), 'property')
+    ctx.cover('normalize_merchant.legacy.returns')
+
+
 def harnesses(tier):
-    return []
+    return [Harness('normalize_merchant[legacy CSV rows]', h_legacy_loop, [Q], prune=True)]
